@@ -148,7 +148,7 @@ def configs(tier):
 
 
 def tasks(tier):
-    ts = [("config", k) for k in range(len(configs(tier)))] + [("en-width",), ("init-frame",), ("async-reset-domain",), ("tb-row-access",)]
+    ts = [("config", k) for k in range(len(configs(tier)))] + [("en-width",), ("init-frame",), ("async-reset-domain",), ("tb-row-access",), ("several-memories",)]
     ts += [("rtlil", k) for k in range(len(configs(tier)))]
     ts += [("behaviour", k) for k in range(len(configs(tier)))]
     # the storage class itself (the contracts the configurations above rely on)
@@ -404,6 +404,72 @@ def check_rtlil(cfg, name):
                 ob(f"read-transparency-mask[{k}]", tmv == want, {"emitted": repr(tm), "expected": want})
                 ob(f"read-clk-enable[{k}]", bool(c.params["\\CLK_ENABLE"]) == (dom != "comb"), c.params["\\CLK_ENABLE"])
     return {"task": name, "paths": 0, "solver_s": 0.0, "obligations": obs}
+
+
+def check_several_memories():
+    """Several memories in ONE module (what most designs look like): per memory, the write ports' PORTIDs are dense from 0 and
+    every read port's TRANSPARENCY_MASK has exactly the bits of its own transparency set -- the numbering restarts for every
+    memory -- in every order of declaration."""
+    import itertools as _it
+    from amaranth.hdl import Module, ClockDomain
+    from amaranth.lib.memory import Memory
+    from amaranth.back import rtlil
+    from harness import rtlil_parse as RP
+    obs = []
+    specs = {"A": (2, (False,)), "B": (1, (True,)), "C": (2, (True, False))}     # name -> (write ports, per read port: transparent for all?)
+    for order in _it.permutations("ABC"):
+        m = Module()
+        m.domains += ClockDomain("sync", reset_less=True)
+        ports = []
+        want = {}
+        for nm in order:
+            n_wr, reads = specs[nm]
+            mem = Memory(shape=4, depth=2, init=[1, 2])
+            wps = [mem.write_port() for _ in range(n_wr)]
+            rps = [mem.read_port(transparent_for=tuple(wps) if tr else ()) for tr in reads]
+            for k, p_ in enumerate(wps):
+                p_.addr.name, p_.data.name, p_.en.name = f"{nm}_w{k}_addr", f"{nm}_w{k}_data", f"{nm}_w{k}_en"
+                ports += [p_.addr, p_.data, p_.en]
+            for k, p_ in enumerate(rps):
+                p_.addr.name, p_.data.name, p_.en.name = f"{nm}_r{k}_addr", f"{nm}_r{k}_data", f"{nm}_r{k}_en"
+                ports += [p_.addr, p_.data, p_.en]
+            m.submodules[f"mem_{nm}"] = mem
+            want[nm] = (n_wr, reads)
+        mods = RP.parse(rtlil.convert(m, ports=ports, emit_src=False))
+        bad = None
+        for mod in mods.values():
+            by_mem = {}
+            for c in mod.cells.values():
+                if c.kind in ("$memwr_v2", "$memrd_v2"):
+                    by_mem.setdefault(str(c.params["\\MEMID"]), []).append(c)
+            for memid, cells in by_mem.items():
+                wrs = [c for c in cells if c.kind == "$memwr_v2"]
+                rds = [c for c in cells if c.kind == "$memrd_v2"]
+                ids = sorted(c.params["\\PORTID"] for c in wrs)
+                if ids != list(range(len(wrs))) and bad is None:
+                    bad = {"memory": memid, "write port PORTIDs": ids, "expected": list(range(len(wrs)))}
+                # which declared memory is this?  the address wire names carry it
+                nm = None
+                for c in wrs + rds:
+                    bs = RP.bits_of(c.ports["\\ADDR"], mod)
+                    if bs:
+                        nm = bs[0][0].lstrip("\\")[0]
+                if nm is None:
+                    continue
+                n_wr, reads = want[nm]
+                for c in rds:
+                    bs = RP.bits_of(c.ports["\\ADDR"], mod)
+                    k = int(bs[0][0].lstrip("\\").split("_r")[1][0])
+                    tm = c.params["\\TRANSPARENCY_MASK"]
+                    tmv = tm.value if isinstance(tm, RP.Const) else tm
+                    exp = ((1 << n_wr) - 1) if reads[k] else 0
+                    if tmv != exp and bad is None:
+                        bad = {"memory": memid, "read port": k, "TRANSPARENCY_MASK": repr(tm), "expected": exp, "write ports of this memory": n_wr}
+        obs.append({"name": f"several-memories[{''.join(order)}]::portids-and-transparency-masks-per-memory", "kind": "post",
+                    "status": "proved" if bad is None else "refuted", "backend": "closed", "time_s": 0.0,
+                    **({} if bad is None else {"failing_input": {**bad, "declaration order": "".join(order),
+                                                                 "how": "three Memory objects in one Module, rtlil.convert, parsed"}})})
+    return {"task": "several-memories", "paths": 0, "solver_s": 0.0, "obligations": obs}
 
 
 def check_behaviour(cfg, name, broken=False):
@@ -786,6 +852,8 @@ def run_task(task):
         return check_config(cfg, f"mem{task[1]}{cfg!r}".replace(" ", ""))
     if task[0] == "en-width":
         return check_en_width()
+    if task[0] == "several-memories":
+        return check_several_memories()
     if task[0] == "tb-row-access":
         return check_tb_row_access()
     if task[0] == "init-frame":
